@@ -303,29 +303,38 @@ func (b Branch) CopyEmpty() *Branch {
 }
 
 func (b *Branch) IntersectHash(other *Branch) *bitcoin.Hash32 {
-	current := b
-	for {
-		if current.parent == nil {
-			break
-		}
-
-		if current.parent == other {
-			return &current.firstHeader.PrevBlock
-		}
-
+	// For each branch in the ancestry of "other", the height and hash of the last header in that
+	// branch that is part of the chain ending at the tip of "other".
+	type link struct {
+		height int
+		hash   *bitcoin.Hash32
+	}
+	otherLinks := make(map[*Branch]link)
+	current := other
+	height := other.Height()
+	hash := &other.Last().Hash
+	for current != nil {
+		otherLinks[current] = link{height: height, hash: hash}
+		height = current.parentHeight
+		hash = &current.firstHeader.PrevBlock
 		current = current.parent
 	}
 
-	current = other
-	for {
-		if current.parent == nil {
-			break
+	// Walk the ancestry of "b" until a branch is found that is also in the ancestry of "other". The
+	// chains split at the lower of the two heights at which they leave that branch.
+	current = b
+	height = b.Height()
+	hash = &b.Last().Hash
+	for current != nil {
+		if otherLink, exists := otherLinks[current]; exists {
+			if otherLink.height < height {
+				return otherLink.hash
+			}
+			return hash
 		}
 
-		if current.parent == b {
-			return &current.firstHeader.PrevBlock
-		}
-
+		height = current.parentHeight
+		hash = &current.firstHeader.PrevBlock
 		current = current.parent
 	}
 
